@@ -76,6 +76,7 @@ class Recorder:
         self.order = None
         self.draws = []
         self.rng = None
+        self.first = None      # atoms that always draw the smallest values, in this priority (they start their components)
 
     def __enter__(self):
         rec = self
@@ -88,7 +89,10 @@ class Recorder:
 
         def fake_random():
             v = rec.rng.getrandbits(48)
-            atom = sys._getframe(1).f_locals.get('_')
+            loc = sys._getframe(1).f_locals  # the weight closure `def w(_): return random()`: its only int local is the atom
+            atom = next((x for x in loc.values() if isinstance(x, int) and not isinstance(x, bool)), None)
+            if atom is not None and rec.first and atom in rec.first:
+                v = (v >> 44) + 16 * rec.first.index(atom)
             rec.draws.append((atom, v))
             return v / 2 ** 48
 
@@ -134,12 +138,13 @@ def front_orders(mol):
     return res
 
 
-def real_write(mol, spec, draw_seed=0):
+def real_write(mol, spec, draw_seed=0, first=None):
     """-> (canonical outcome line, hidden inputs dict) ; the molecule's caches are flushed first (str() is cached)"""
     import random as _random
     mol.flush_cache()
     with Recorder() as rec:
         rec.rng = _random.Random(draw_seed)
+        rec.first = [first] if isinstance(first, int) else first
         try:
             text = format(mol, spec)
             order = rec.order if rec.order is not None else []
@@ -214,6 +219,7 @@ def judge(mol, text, order, spec=''):
     back = dict(zip(ratoms, order))
     diffs = []
     lossy = not LOSSLESS(spec)
+    kek = None
     for rn, n in back.items():
         a, b = mol._atoms[n], r._atoms[rn]
         if a.atomic_number != b.atomic_number:
@@ -227,6 +233,22 @@ def judge(mol, text, order, spec=''):
         if '!x' not in spec and a.is_radical != b.is_radical:
             diffs.append(f'radical@{n}')
         if a.implicit_hydrogens != b.implicit_hydrogens:
+            if b.implicit_hydrogens is None and b.hybridization == 4:
+                # chython leaves the H count of aromatic hetero atoms read from lower-case symbols undefined until kekule()
+                # (DESIGN §7 #18): compare after kekule() on copies of both sides (H counts do not depend on the Kekule form)
+                if kek is None:
+                    try:
+                        k1, k2 = mol.copy(), r.copy()
+                        k1.kekule()
+                        k2.kekule()
+                        kek = (k1, k2)
+                    except Exception:  # noqa
+                        kek = False
+                if kek and kek[0]._atoms[n].implicit_hydrogens == kek[1]._atoms[rn].implicit_hydrogens:
+                    continue
+                if kek is False:
+                    diffs.append(f'aromatic-unresolvable@{n}')
+                    continue
             diffs.append(f'hcount@{n}:{a.implicit_hydrogens}->{b.implicit_hydrogens}')
     rb = {frozenset((back[x], back[y])): int(bd) for x, y, bd in r.bonds()}
     ob = {frozenset((x, y)): int(bd) for x, y, bd in mol.bonds()}
@@ -364,11 +386,30 @@ def has_stereo(mol):
     return any(a.stereo is not None for a in mol._atoms.values()) or any(b.stereo is not None for _, _, b in mol.bonds())
 
 
+STEREO_EXTRA = [
+    'F[C@](Cl)(Br)I', 'C[C@@](N)(O)/C=C/F', 'C[C@](F)(Cl)CC', 'F/C=C/C=C/C', 'F/C=C\\C=C/Cl', 'C1CCC/C=C\\CC1', 'C/C=C1/CCCC(F)C1',
+    'F/C=C=C=C/Cl', 'CC=[C@]=CC', 'C[C@H](F)/C=C/[C@@H](Cl)Br', 'C/C(F)=C(/Cl)Br', 'F/C=C1\\CC[C@H](C)C1', 'C/C=C/C=C/C=C/C',
+    'F[C@](Cl)(Br)I.C/C=C\\F', '[2H][C@](F)(Cl)Br', 'C[C@]12CC[C@H](O)CC1CC2', 'C[C@@]1(F)CC[C@](C)(Cl)CC1', 'O[C@H]1C[C@@H](O)C1',
+    'C.[C@H](F)(Cl)Br', 'CC.N[C@@H](C)C(=O)O', '[Na+].[O-][C@H](F)Cl', 'O.F/C=C/Cl.[C@H](N)(O)C', 'C[N@+](CC)(CCC)CCCC', 'C[Si@](F)(Cl)Br', 'C(/F)=C/[C@](C)(N)O', 'C1C[C@]2(CCCO2)OC1', 'N[C@](C)(F)C(=O)O', 'C/C=C(/C)\\C=C\\C',
+    'CC(C)=[C@]=C(C)F', 'F/C(Cl)=C(/Br)I',
+]
+
+
+def stereo_extra():
+    out = []
+    for s in STEREO_EXTRA:
+        m = molgen.parse(s)
+        if m is not None:
+            out.append(('stereo:' + s, m))
+    return out
+
+
 def molecules(ctx):
     rng = ctx.rng
     q = ctx.quick
     out = []
     out += molgen.handmade()
+    out += stereo_extra()
     out += molgen.corpus(rng, 110 if q else 1200)
     for n in (3, 4, 5) if q else (3, 4, 5, 6):
         graphs = list(molgen.small_graphs(n))
@@ -384,6 +425,21 @@ def molecules(ctx):
             out.append((f'rings[{i}]', molgen.decorate(rng, molgen.ring_assembly(rng), hetero=0.15, multiple=0.1, charge=0.03)))
         except Exception:  # noqa
             continue
+    # aromatic forms produced by thiele() from a Kekule form (independent of how the reader assigns aromatic bonds)
+    rearom = []
+    for name, m in out[:(80 if q else 600)]:
+        try:
+            c = m.copy()
+            if c.kekule() | c.thiele():
+                rearom.append((name + '/rearom', c))
+        except Exception:  # noqa
+            continue
+    out += rearom
+    try:
+        tf = molgen.test_files()
+        out += tf if not q else rng.sample(tf, min(len(tf), 25))
+    except Exception:  # noqa
+        pass
     extra = []
     for name, m in out[::3 if q else 2]:
         try:
@@ -417,11 +473,23 @@ def correspond(ctx):
             variants.append((strip_stereo(mol), 'stereo-stripped'))
         for m, tag in variants:
             st = has_stereo(m)
-            specs = ['', 'r'] + ctx.rng.sample(SPECS[1:], n_specs)
-            for spec in dict.fromkeys(specs):
+            specs = [(sp, None) for sp in dict.fromkeys(['', 'r'] + ctx.rng.sample(SPECS[1:], n_specs))]
+            if st:
+                specs += [('a', None)] + [('ra', None)] * 4
+            if st:  # every stereo atom / double-bond end once as the first atom of the text (first-atom chirality rule, '/' placement)
+                centres = [n for n, a in m._atoms.items() if a.stereo is not None]
+                centres += [n for x, y, b in m.bonds() if b.stereo is not None for n in (x, y)]
+                comps = m.connected_components
+                for n in list(dict.fromkeys(centres))[:6 if ctx.quick else 12]:
+                    specs.append((ctx.rng.choice(['r', 'rh', 'ra', 'rA']), n))
+                    other = [min(c) for c in comps if n not in c]
+                    if other:  # the same atom as the first atom of a LATER component (after a dot)
+                        specs.append((ctx.rng.choice(['r', 'rh']), [other[0], n]))
+            for spec, first in specs:
                 seed = ctx.rng.getrandbits(30)
-                line, text, order, draws = real_write(m, spec, seed)
-                modelled = True
+                line, text, order, draws = real_write(m, spec, seed, first)
+                # random order: the draws must be attributable to atoms, otherwise this style is validated by re-reading only
+                modelled = not ('r' in spec and any(a is None for a, _ in draws))
                 nontrivial = m.bonds_count > 0
                 if modelled and ctx.build_ok:
                     reqs.append(request('W', m, spec, order, draws))
@@ -438,7 +506,7 @@ def correspond(ctx):
                             expect.append(None)
                             meta.append(('R', name, tag, spec, seed, m))
                 else:
-                    ctx.dist('stereo-marks-real-code-only')
+                    ctx.dist('random-order-K-skipped(draws-not-attributable)')
                 # relational: real reader on the real text, judged under the written order
                 if text is not None:
                     ctx.count(('J', spec, tuple(wire.mol_to_ints(m)), tuple(draws)), nontrivial)
@@ -450,8 +518,8 @@ def correspond(ctx):
                     ctx.dist('reread:' + ('iso' if not d else 'DIFF'))
                     if d:
                         ctx.cov['disagreements_checked'] += 1
-                        inp = {'kind': 'roundtrip', 'mol': wire.mol_to_ints(m), 'spec': spec, 'draw_seed': seed, 'name': name}
-                        ctx.fail(signature_of(d, m), f'{name} [{spec!r}] written {text!r} re-reads with differences {d[:5]}', inp)
+                        inp = {'kind': 'roundtrip', 'mol': wire.mol_to_ints(m), 'spec': spec, 'draw_seed': seed, 'first': first, 'name': name}
+                        ctx.fail(signature_of(d, m, spec), f'{name} [{spec!r}] written {text!r} re-reads with differences {d[:5]}', inp)
                 else:
                     ctx.dist('writer-raises:' + line)
                     if line != 'err crash:IndexError' or not name.startswith('hub'):
@@ -492,7 +560,9 @@ def correspond(ctx):
 _state = {}
 
 
-def signature_of(diffs, mol):
+def signature_of(diffs, mol, spec=''):
+    if 'm' in spec and any(d.startswith('reader-raises') for d in diffs) and max(mol._atoms) > 9999:
+        return 'C02/atom-map-over-9999'
     kinds = sorted({d.split('@')[0].split(':')[0] for d in diffs})
     return 'C02/reread-differs/' + '+'.join(kinds)
 
@@ -628,7 +698,7 @@ def search(ctx):
     t0 = time.time()
     budget = 60 if ctx.quick else 600
     start = [(m, name) for m, _, _, name in _state.get('disagree', [])]
-    pool = start + [(m, name) for name, m in molecules(ctx)]
+    pool = start + [(build_from_ints(hub_graph(k)), f'hub{k}') for k in (12, 99, 100)] + [(m, name) for name, m in molecules(ctx)]
     for m, name in pool:
         if time.time() - t0 > budget:
             break
@@ -638,21 +708,28 @@ def search(ctx):
         except Exception:  # noqa
             pass
         for c in cands:
-            if not judgeable(c):
-                continue
-            for spec in SPECS:
-                for seed in ((1, 2, 3) if 'r' in spec else (0,)):
-                    line, text, order, draws = real_write(c, spec, seed)
+            firsts = [None]
+            if has_stereo(c):
+                firsts += list(dict.fromkeys([n for n, a in c._atoms.items() if a.stereo is not None] +
+                                             [n for x, y, b in c.bonds() if b.stereo is not None for n in (x, y)]))[:8]
+            comps = c.connected_components
+            later = [[min(k for k in comps[0] if True) if f not in comps[0] else min(comps[-1]), f] for f in firsts[1:]] if len(comps) > 1 else []
+            for spec, first in ([(sp, None) for sp in SPECS] + [('r', f) for f in firsts[1:]] + [('rh', f) for f in firsts[1:]]
+                                + [('r', f) for f in later]):
+                for seed in ((1, 2, 3) if 'r' in spec and first is None else (0,)):
+                    line, text, order, draws = real_write(c, spec, seed, first)
                     if text is None:
-                        if len(c) < 90:
-                            ctx.fail('C02/writer-raises/' + line.split(':')[-1], f'{name} [{spec!r}]: writer raises {line}',
-                                     {'kind': 'roundtrip', 'mol': wire.mol_to_ints(c), 'spec': spec, 'draw_seed': seed})
+                        sig = 'C02/closure-heap-exhausted' if line.endswith('IndexError') and c.bonds_count - len(c) >= 98 \
+                            else 'C02/writer-raises/' + line.split(':')[-1]
+                        ctx.fail(sig, f'{name} [{spec!r}]: writer raises {line}',
+                                 {'kind': 'roundtrip', 'mol': wire.mol_to_ints(c), 'spec': spec, 'draw_seed': seed, 'first': first})
+                        if sig != 'C02/closure-heap-exhausted':
                             return
-                        continue
-                    d = judge(c, text, order, spec)
+                        break
+                    d = judge(c, text, order, spec) if judgeable(c) else judge_connectivity_only(c, text, order)
                     if d:
-                        ctx.fail(signature_of(d, c), f'{name} [{spec!r}] written {text!r} re-reads with differences {d[:5]}',
-                                 {'kind': 'roundtrip', 'mol': wire.mol_to_ints(c), 'spec': spec, 'draw_seed': seed})
+                        ctx.fail(signature_of(d, c, spec), f'{name} [{spec!r}] written {text!r} re-reads with differences {d[:5]}',
+                                 {'kind': 'roundtrip', 'mol': wire.mol_to_ints(c), 'spec': spec, 'draw_seed': seed, 'first': first})
                         return
 
 
@@ -665,6 +742,15 @@ def probe(inp):
             return True, f'writer raises on a graph with {inp["ring"]} simultaneously open closures: {line}'
         d = judge_connectivity_only(m, text, order)
         return bool(d), f'written ({len(text)} chars), re-read differences: {d[:4]}'
+    if kind == 'remap-write':
+        from chython import smiles
+        m = smiles(inp['smiles'])
+        m.remap({int(k): v for k, v in inp['remap'].items()})
+        line, text, order, _ = real_write(m, inp.get('spec', ''), 0)
+        if text is None:
+            return True, f'writer raises: {line}'
+        d = judge(m, text, order, inp.get('spec', ''))
+        return bool(d), f'written {text!r}; differences after re-reading: {d[:4]}'
     if kind == 'collision':
         m1, _ = wire.ints_to_mol(inp['mol'], calc=True)
         m2, _ = wire.ints_to_mol(inp['mol2'], calc=True)
@@ -672,7 +758,7 @@ def probe(inp):
         diff = structure_key(m1) != structure_key(m2)
         return same and diff, f'{str(m1)!r} vs {str(m2)!r}; structures differ: {diff}'
     m, _ = wire.ints_to_mol(inp['mol'], calc=True)
-    line, text, order, _ = real_write(m, inp.get('spec', ''), inp.get('draw_seed', 0))
+    line, text, order, _ = real_write(m, inp.get('spec', ''), inp.get('draw_seed', 0), inp.get('first'))
     if text is None:
         return True, f'writer raises: {line}'
     d = judge(m, text, order, inp.get('spec', ''))
